@@ -182,6 +182,11 @@ impl AcronymSet {
         let mut i = start_pos;
 
         while i < bytes.len() {
+            // A byte of a multi-byte character is not a character: casting it would let a custom
+            // acronym containing U+0080..U+00FF match half of one and split it below.
+            if !bytes[i].is_ascii() {
+                break;
+            }
             let ch = bytes[i] as char;
 
             // Check both uppercase and lowercase versions
